@@ -290,7 +290,7 @@ if __name__ == '__main__':
     ap.add_argument('unit')
     ap.add_argument('--repo', default='/repo')
     ap.add_argument('--keep')
-    ap.add_argument('--rlimit', type=float)
+    ap.add_argument('--rlimit', type=float, default=30)
     ap.add_argument('--no-twins', action='store_true')
     ap.add_argument('-v', action='store_true')
     a = ap.parse_args()
